@@ -53,7 +53,11 @@ type c18II struct {
 	name string
 	off  func(delay, skew time.Duration) (time.Duration, bool) // offset from now; false = attribute absent
 	v    core.Verdict
+	zone *time.Location // the zone the instant is written in (nil: UTC, "Z")
 }
+
+// c18Zone is the zone c18Build writes the IssueInstant in (set around the call by the field-product cases).
+var c18Zone *time.Location
 
 var c18IIs = []c18II{
 	{"30s-ago", func(d, s time.Duration) (time.Duration, bool) {
@@ -61,21 +65,27 @@ var c18IIs = []c18II{
 			return -d / 3, true
 		}
 		return -30 * time.Second, true
-	}, core.MustAccept},
-	{"delay-5s", func(d, s time.Duration) (time.Duration, bool) { return -d + 5*time.Second, true }, core.MustAccept},
-	{"delay+5s", func(d, s time.Duration) (time.Duration, bool) { return -d - 5*time.Second, true }, core.MustReject},
-	{"delay+skew-5s", func(d, s time.Duration) (time.Duration, bool) { return -d - s + 5*time.Second, true }, core.MustReject},
-	{"delay+half-skew", func(d, s time.Duration) (time.Duration, bool) { return -d - s/2, true }, core.MustReject},
-	{"1h-ago", func(d, s time.Duration) (time.Duration, bool) { return -time.Hour - d, true }, core.MustReject},
-	{"future-30s", func(d, s time.Duration) (time.Duration, bool) { return 30 * time.Second, true }, core.DontCare},
-	{"absent", func(d, s time.Duration) (time.Duration, bool) { return 0, false }, core.MustReject},
+	}, core.MustAccept, nil},
+	{"delay-5s", func(d, s time.Duration) (time.Duration, bool) { return -d + 5*time.Second, true }, core.MustAccept, nil},
+	{"delay+5s", func(d, s time.Duration) (time.Duration, bool) { return -d - 5*time.Second, true }, core.MustReject, nil},
+	{"delay+skew-5s", func(d, s time.Duration) (time.Duration, bool) { return -d - s + 5*time.Second, true }, core.MustReject, nil},
+	{"delay+half-skew", func(d, s time.Duration) (time.Duration, bool) { return -d - s/2, true }, core.MustReject, nil},
+	{"1h-ago", func(d, s time.Duration) (time.Duration, bool) { return -time.Hour - d, true }, core.MustReject, nil},
+	{"future-30s", func(d, s time.Duration) (time.Duration, bool) { return 30 * time.Second, true }, core.DontCare, nil},
+	{"absent", func(d, s time.Duration) (time.Duration, bool) { return 0, false }, core.MustReject, nil},
 	// instants so far back that their distance from now does not fit a time.Duration (about 292 years): still stale
-	{"year-1700", func(d, s time.Duration) (time.Duration, bool) { return c18Year(1700), true }, core.MustReject},
-	{"year-1500", func(d, s time.Duration) (time.Duration, bool) { return c18Year(1500), true }, core.MustReject},
-	{"year-1446", func(d, s time.Duration) (time.Duration, bool) { return c18Year(1446), true }, core.MustReject},
-	{"year-1000", func(d, s time.Duration) (time.Duration, bool) { return c18Year(1000), true }, core.MustReject},
-	{"year-0001", func(d, s time.Duration) (time.Duration, bool) { return c18Year(1), true }, core.MustReject},
-	{"year-9999", func(d, s time.Duration) (time.Duration, bool) { return c18Year(9999), true }, core.DontCare},
+	{"year-1700", func(d, s time.Duration) (time.Duration, bool) { return c18Year(1700), true }, core.MustReject, nil},
+	{"year-1500", func(d, s time.Duration) (time.Duration, bool) { return c18Year(1500), true }, core.MustReject, nil},
+	{"year-1446", func(d, s time.Duration) (time.Duration, bool) { return c18Year(1446), true }, core.MustReject, nil},
+	{"year-1000", func(d, s time.Duration) (time.Duration, bool) { return c18Year(1000), true }, core.MustReject, nil},
+	{"year-0001", func(d, s time.Duration) (time.Duration, bool) { return c18Year(1), true }, core.MustReject, nil},
+	{"year-9999", func(d, s time.Duration) (time.Duration, bool) { return c18Year(9999), true }, core.DontCare, nil},
+	// the same instants written with a zone offset: the offset is part of the value
+	{"30s-ago-written-with-+02:00", func(d, s time.Duration) (time.Duration, bool) { return -d / 3, true }, core.MustAccept, time.FixedZone("", 2*3600)},
+	{"30s-ago-written-with--05:00", func(d, s time.Duration) (time.Duration, bool) { return -d / 3, true }, core.MustAccept, time.FixedZone("", -5*3600)},
+	{"2h-ago-written-with-+02:00", func(d, s time.Duration) (time.Duration, bool) { return -2*time.Hour - d/3, true }, core.MustReject, time.FixedZone("", 2*3600)},
+	{"5h30m-ago-written-with-+05:30", func(d, s time.Duration) (time.Duration, bool) { return -5*time.Hour - 30*time.Minute - d/3, true }, core.MustReject, time.FixedZone("", 5*3600+1800)},
+	{"14h-ago-written-with-+14:00", func(d, s time.Duration) (time.Duration, bool) { return -14*time.Hour - d/3, true }, core.MustReject, time.FixedZone("", 14*3600)},
 }
 
 // c18Regular is the number of c18IIs entries that are offsets from now; the rest name a calendar year (see c18Year).
@@ -111,6 +121,7 @@ var c18Issuers = []struct {
 }
 
 var c18Sigs = []string{"valid", "valid-no-keyinfo", "absent", "untrusted-key", "lookalike-certificate-key", "encryption-use-key", "edited-after/destination", "edited-after/issuer", "edited-after/status", "edited-after/issueinstant",
+	"valid-keyinfo-names-the-subject-only", "valid-keyinfo-issuer-serial-only", "valid-keyinfo-keyname-only",
 	"other-root/samlp:Response", "other-root/samlp:ArtifactResponse", "other-root/samlp:LogoutRequest", "other-root/foreign:LogoutResponse", "other-root/saml:LogoutResponse", "other-root/samlp:logoutresponse",
 	"relocated-under-status", "wrapped-in-unsigned", "duplicated", "attacker-signed+trusted-cert-appended", "attacker-signed+trusted-cert-first", "signature-value-truncated", "foreign-ns-signature-lookalike"}
 
@@ -123,7 +134,11 @@ func c18Build(dest, issuer *string, st c18Status, iiOff time.Duration, iiPresent
 		el.CreateAttr("ID", "id-logout-response-1")
 		el.CreateAttr("Version", "2.0")
 		if iiPresent {
-			el.CreateAttr("IssueInstant", samlgen.TS(ii))
+			if c18Zone != nil {
+				el.CreateAttr("IssueInstant", ii.In(c18Zone).Format("2006-01-02T15:04:05.000Z07:00"))
+			} else {
+				el.CreateAttr("IssueInstant", samlgen.TS(ii))
+			}
 		}
 		if dest != nil {
 			el.CreateAttr("Destination", *dest)
@@ -172,6 +187,22 @@ func c18Build(dest, issuer *string, st c18Status, iiOff time.Duration, iiPresent
 		s := samlgen.Sign(el, trustKey, "")
 		if ki := s.FindElement("./KeyInfo"); ki != nil {
 			s.RemoveChild(ki)
+		}
+	case strings.HasPrefix(sig, "valid-keyinfo-"):
+		// a genuine signature whose KeyInfo only hints at the key (it carries no certificate): still the trusted IdP's signature
+		s := samlgen.Sign(el, trustKey, "")
+		if ki := s.FindElement("./KeyInfo"); ki != nil {
+			ki.Child = nil
+			switch sig {
+			case "valid-keyinfo-names-the-subject-only":
+				ki.CreateElement("ds:X509Data").CreateElement("ds:X509SubjectName").SetText("CN=idp1.verif.example")
+			case "valid-keyinfo-issuer-serial-only":
+				is := ki.CreateElement("ds:X509Data").CreateElement("ds:X509IssuerSerial")
+				is.CreateElement("ds:X509IssuerName").SetText("CN=idp1.verif.example")
+				is.CreateElement("ds:X509SerialNumber").SetText("1")
+			default:
+				ki.CreateElement("ds:KeyName").SetText("idp1")
+			}
 		}
 	case sig == "absent":
 	case sig == "untrusted-key":
@@ -288,7 +319,9 @@ func runC18(c *core.Ctx) {
 	one := func(t *core.T, key string, tl tol, tr string, di, ii, si, iii int, sig, enc string) {
 		saml.MaxIssueDelay, saml.MaxClockSkew = tl.delay, tl.skew
 		off, present := c18IIs[iii].off(tl.delay, tl.skew)
+		c18Zone = c18IIs[iii].zone
 		doc := c18Build(c18Dests[di].v, c18Issuers[ii].v, c18Statuses[si], off, present, sig, idp1())
+		c18Zone = nil
 		err, pan := call(sps[tr], enc, doc)
 		t.Impl(1)
 		if pan != "" {
@@ -312,6 +345,11 @@ func runC18(c *core.Ctx) {
 		case "valid":
 		case "valid-no-keyinfo":
 			dc = true
+		case "valid-keyinfo-names-the-subject-only", "valid-keyinfo-issuer-serial-only", "valid-keyinfo-keyname-only":
+			dc = tr == "meta2" // with two trusted certificates and no certificate in the message, which one to try is the verifier's business
+			if tr == "fingerprint" {
+				v = core.MustReject // only a fingerprint is configured: without a certificate in the message there is nothing to check it against
+			}
 		default:
 			v = core.MustReject
 		}
